@@ -1,6 +1,6 @@
 (* Run/C10.v — lookups are exact for every id and every name (C10) *)
 From HpoV Require Import Gen.Consts Model.Base Model.Group Model.Onto Model.Query Model.Dump
-  Model.Script Spec.Sets Run.World Run.C02.
+  Model.Script Model.ManyTerms Spec.Sets Run.World Run.C02.
 
 (* world, probe ids beyond the sweep, name queries *)
 Definition input_C10 : Type := winput * list N * list (list N).
@@ -93,7 +93,42 @@ Definition spec_C10 (i : input_C10) (o : obs_C10) : bool :=
                       | [(id, _)] => mem id matching
                       | _ => false
                       end) (combine queries qs)
+         | WMany _ first stride count =>
+             (* found iff created: exactly the ids first, first+stride, ..., each with the one name *)
+             list_eqb iter_ids (ManyTerms.tseq first stride (N.to_nat count))
+             && forallb (fun f : N * N * list N => list_eqb (snd f) ManyTerms.many_name) found
          | _ => true
          end
   | _ => true
+  end.
+
+(* ---------------- C10m: more terms than a 16-bit slot index can address ----------------
+   The crate side still sweeps hpo(id) over the whole id space; for 65 537+ terms the answers are
+   summarised (how many ids answered, how many answers carried another id or name than asked for,
+   sum / min / max of the answered ids, and the same for iteration) instead of listed.  The model's
+   "wrong answers" count is 0 by theorem C10_lookup_returns_that_id, not by evaluation. *)
+Definition obs_C10m : Type := res (N * N * N * N * N * N * N * N * list (N * N)).
+
+Definition sumN (l : list N) : N := fold_left N.add l 0.
+Definition minN (l : list N) : N := match l with [] => 0 | x :: t => fold_left N.min t x end.
+Definition maxN (l : list N) : N := fold_left N.max l 0.
+
+Definition run_C10m (i : winput * list N) : obs_C10m :=
+  let '((w, tbl), probes) := i in
+  do r <- build_world tbl w ;;
+  do o <- snd r ;;
+  let ids := map t_id (ar_terms (o_arena o)) in
+  let found := filter (fun id => id <? MAX_HPO_ID) ids in
+  let probed := somes (map (fun id => match o_get id o with Some t => Some (id, t_id t) | None => None end) probes) in
+  Ok (ar_len (o_arena o), Nlen ids, sumN ids, Nlen found, 0, sumN found, minN found, maxN found, probed).
+
+Definition spec_C10m (i : winput * list N) (o : obs_C10m) : bool :=
+  match fst (fst i), o with
+  | WMany _ first stride count, Ok (len, itn, its, found, wrong, fsum, fmin, fmax, probed) =>
+      let expect_sum := count * first + stride * (count * (count - 1) / 2) in
+      (len =? count) && (itn =? count) && (its =? expect_sum)
+      && (found =? count) && (wrong =? 0) && (fsum =? expect_sum)
+      && (fmin =? first) && (fmax =? first + stride * (count - 1))
+      && forallb (fun p : N * N => (fst p =? snd p) && (fst p <? MAX_HPO_ID)) probed
+  | _, _ => true
   end.
